@@ -1,5 +1,5 @@
 (* C01: every public operation on untrusted font data returns a value or an error.
-   input = FIXTURE|MUTSEED|NMUT ; the specified outcome is always "ok" (no crash, no hang). *)
+   input = FIXTURE|MUTSEED|NMUT  or  X:<component>:<that harness' case line> ; the specified outcome is always "ok" (no crash, no hang). *)
 open Verdict
 
 let run (_input : string) : string = "ok"
@@ -16,6 +16,7 @@ let judge (_input : string) (impl : string) (_model : string) : verdict =
     | _ -> Violation ("other", impl)
 
 let tag (input : string) (_out : string) : string =
+  if String.length input > 6 && String.sub input 0 2 = "X:" then "component:" ^ String.sub input 2 3 else
   match String.split_on_char '|' input with
   | f :: seed :: _ -> (if seed = "0" then "pristine:" else "mutated:") ^ f
   | _ -> "?"
